@@ -273,6 +273,22 @@ func (c *Ctx) recognisers(fn *ssa.Function, extractor *ssa.Function, depth int) 
 			if len(x.Call.Args) == 1 && subj[x.Call.Args[0]] && c.isJSONNumberPredicate(x.Call.StaticCallee()) {
 				out["json.Number"] = true
 			}
+			// the json.Number arm moved into a helper that is handed the value: ratFromJSONNumber(v, r)
+			if h := x.Call.StaticCallee(); h != nil && h != fn && h != extractor && c.P.InPkg(h) && len(h.Blocks) > 0 {
+				for ai, a := range x.Call.Args {
+					if !subj[a] || ai >= len(h.Params) {
+						continue
+					}
+					hs := subjectSet(h, h.Params[ai])
+					core.EachInstr(h, func(j ssa.Instruction) {
+						if ta, ok := j.(*ssa.TypeAssert); ok && isNamed(ta.AssertedType, "encoding/json", "Number") {
+							if ic, ok := ta.X.(*ssa.Call); ok && core.CalleeKey(&ic.Call) == "reflect.Value.Interface" && hs[ic.Call.Args[0]] {
+								out["json.Number"] = true
+							}
+						}
+					})
+				}
+			}
 			if depth > 0 && x.Call.StaticCallee() == extractor && extractor != fn && len(x.Call.Args) > 0 && subj[x.Call.Args[0]] && len(guardsOf(x)) == 0 {
 				for k := range c.recognisers(extractor, extractor, depth-1) {
 					out[k+"(via extractor)"] = true
